@@ -45,6 +45,9 @@ CLAIMED = {
  "C19": ("all-paths construction/provenance analysis of the pool constructors over go/ssa",
          "Static, composition only: on every returning path of NewFixedPool the same limit parameter sizes the fixed limit and a precise strategy, the default limiter built from that pair is wrapped by a blocking/queue limiter for every ordering case (none left unset), backlog size and the normalised (non-negative) timeout reach the wrapper; NewPool wraps the caller's delegate on every case; pool Acquire passes the wrapped limiter's results through unchanged. The safety half follows through C01/C02 on the composed stack; the liveness half (every queued caller eventually granted within the timeout) is not applicable to static analysis.",
          "5/C19"),
+ "C03": ("path-sensitive admission-predicate check (branch facts + operand provenance), exact share-formula match, share-coverage (who-gets-UpdateLimit / who-may-write) and must-lockset over go/ssa",
+         "Static: a request whose partition was found is refused on exactly the paths that established total.busy >= total.limit and bin.busy >= bin.limit, and granted otherwise; the first registered match decides; UpdateLimit stores exactly max(1, ceil(float(total) x immutable fraction)); every selectable partition (container elements and the unknown bucket) is given its share in the constructor, in SetLimit and when added dynamically, with no other writer of a bin limit; the whole decision and add/remove are exclusive critical sections of the strategy mutex. Exact bins are C02/O5. Floating error of the product and user predicates are not covered.",
+         "5/C03"),
 }
 
 PENDING_REASON = "check not built yet in this session; see DESIGN.md section 5 for the planned static obligations"
